@@ -118,8 +118,8 @@ def _rows(draw, n, kinds, allow_empty=False):
         r = {"k": k, "v": v}
         if k == "ndarray":
             r["dt"] = draw(st.sampled_from(ROW_DTYPES))
-            if r["dt"] == "u1" and v and max(v) > 255:
-                r["dt"] = "i8"
+            if v and max(v) > np.iinfo(r["dt"]).max:
+                r["dt"] = "i8"          # the index values must fit the index dtype
         return r
     if k == "slice":
         b = st.one_of(st.none(), st.integers(-n - 2, n + 2))
@@ -130,7 +130,7 @@ def _rows(draw, n, kinds, allow_empty=False):
 @st.composite
 def _bad_rows(draw, n):
     """A row list with at least one entry outside [-n, n); the others are valid rows in [0,n)."""
-    bad = draw(st.one_of(st.integers(n, n + 3), st.sampled_from([n, n, 2 * n, 10 ** 6, 2 ** 40]),
+    bad = draw(st.one_of(st.integers(n, n + 3), st.sampled_from([n, n, 2 * n, n + 10 ** 6, 2 ** 40]),
                          st.integers(-n - 3, -n - 1)))
     good = draw(st.lists(st.integers(0, n - 1), min_size=0, max_size=4))
     pos = draw(st.integers(0, len(good)))
